@@ -154,6 +154,9 @@ def run_into(ctx, rep, prop):
         rep.merge(d, "repetition_%d_calls_same_object_and_fresh_equal_objects" % REPS)
     for d in ctx.pmap(twin_shard, [(prop, ctx.seed)]):
         rep.merge(d, "render_twins_with_different_run_boundaries")
+    if chains(prop):
+        for d in ctx.pmap(chain_shard, [(prop, ctx.seed)]):
+            rep.merge(d, "derivation_chains_of_%d_steps" % CHAIN_LEN)
 
 
 def check_twins(acc, prop):
@@ -192,4 +195,160 @@ def twin_shard(args):
     prop, seed = args
     acc = Acc(seed=seed)
     check_twins(acc, prop)
+    return acc.export()
+
+
+# ---- long derivation chains ------------------------------------------------------------------------------------------------------
+
+CHAIN_LEN = 80
+PIECES = (("a", (("fg", 31),)), ("b", (("fg", 34),)), ("c", ()), ("d", (("bold", True),)), ("e", (("bold", True), ("fg", 31))), ("", (("fg", 32),)), ("fg", (("fg", 34),)), (" ", ()))
+
+
+def _piece(k, as_str=False):
+    t, a = PIECES[k % len(PIECES)]
+    if as_str or (not a and k % 2):
+        return t, [(c, ()) for c in t]
+    return C.build(((t, a),)), [(c, C.norm_atts(dict(a))) for c in t]
+
+
+def chains(prop):
+    """name -> step function(k, f, cells) -> (new f, new cells). Each step applies to the RESULT of the previous one."""
+    from curtsies.formatstring import fmtstr
+
+    def append_only(k, f, cells):
+        p, pc = _piece(k)
+        return f.append(p), cells + pc
+
+    def splice_mixed(k, f, cells):
+        p, pc = _piece(k)
+        m = k % 5
+        if m == 0:
+            return f.append(p), cells + pc
+        if m == 1:
+            i = len(cells) // 2
+            return f.splice(p, i), cells[:i] + pc + cells[i:]
+        if m == 2:
+            return f.splice(p, 0), pc + cells
+        if m == 3 and len(cells) >= 3:
+            return f.splice("", 1, 2), cells[:1] + cells[2:]
+        i = max(0, len(cells) - 1)
+        return f.splice(p, i, i + 1), cells[:i] + pc + cells[i + 1 :]
+
+    def add_right(k, f, cells):
+        p, pc = _piece(k)
+        return f + p, cells + pc
+
+    def add_left(k, f, cells):
+        p, pc = _piece(k)
+        return p + f, pc + cells
+
+    def add_and_cut(k, f, cells):
+        p, pc = _piece(k)
+        if k % 4 == 3 and len(cells) > 2:
+            return f[1:], cells[1:]
+        if k % 7 == 6 and len(cells) > 2:
+            return f[:-1], cells[:-1]
+        return f + p, cells + pc
+
+    def join_chain(k, f, cells):
+        p, pc = _piece(k)
+        sep, sc = _piece(k + 3)
+        if isinstance(sep, str):
+            sep = fmtstr(sep)
+        return sep.join([f, p]), cells + sc + pc
+
+    ATT_STEPS = (("fg", 31), ("bold", True), ("fg", 34), ("bg", 41), ("bold", False), ("underline", True), ("bg", 44), ("underline", False), ("fg", 32))
+
+    def restyle(k, f, cells):
+        name, v = ATT_STEPS[k % len(ATT_STEPS)]
+        p, pc = _piece(k)
+        f2, c2 = f + p, cells + pc
+        if k % 3 == 0:
+            d = lambda a: C.norm_atts(dict(dict(a), **{name: v}))
+            return f2.copy_with_new_atts(**{name: v}), [(c, d(a)) for c, a in c2]
+        if k % 3 == 1:
+            d = lambda a: C.norm_atts({x: y for x, y in dict(a).items() if x != name})
+            return f2.new_with_atts_removed(name), [(c, d(a)) for c, a in c2]
+        return f2, c2
+
+    def pad_and_case(k, f, cells):
+        p, pc = _piece(k)
+        if k % 3 == 0:
+            return f + p, cells + pc
+        # a delegated str method keeps the formatting that ALL characters share (the property's reading), nothing else
+        shared = tuple(sorted(set.intersection(*[set(a) for _, a in cells]))) if cells else ()
+        if k % 3 == 1:
+            return f.upper() if k % 2 else f.lower(), [((c.upper() if k % 2 else c.lower()), shared) for c, a in cells]
+        return f.replace("a", "A"), [("A" if c == "a" else c, shared) for c, a in cells]
+
+    table = {
+        "C09": {"append_only": append_only, "splice_mixed": splice_mixed},
+        "C06": {"add_right": add_right, "add_left": add_left, "add_and_cut": add_and_cut, "join_chain": join_chain},
+        "C14": {"restyle": restyle},
+        "C01": {"add_right": add_right, "splice_mixed": splice_mixed, "restyle": restyle},
+        "C05": {"add_right": add_right, "splice_mixed": splice_mixed, "restyle": restyle},
+        "C13": {"append_only": append_only, "add_and_cut": add_and_cut, "restyle": restyle},
+        "C10": {"add_right": add_right, "splice_mixed": splice_mixed},
+        "C19": {"add_right": add_right, "append_only": append_only},
+    }
+    return table.get(prop, {})
+
+
+def check_chains(acc, prop, n=CHAIN_LEN):
+    from curtsies.formatstring import FmtStr
+    from mc import sgr
+
+    for name, step in sorted(chains(prop).items()):
+        for observe in (False, True):
+            f = C.build((("s", (("fg", 31),)), ("t", ())))
+            cells = C.cells(f)
+            alive = []
+            for k in range(n):
+                case = {"chain": name, "step": k + 1, "observed_after_every_step": observe}
+                acc.case(True, key=("chain", prop, name, observe, k), sample=case)
+                acc.transitions += 1
+                before = (f, C.snapshot(f)) if observe else None
+                try:
+                    f2, cells = step(k, f, cells)
+                except Exception as ex:  # noqa
+                    acc.failure("%s:chain_raises:%s" % (prop, type(ex).__name__), case, repr(ex))
+                    break
+                if before is not None and C.snapshot(before[0]) != before[1]:
+                    acc.failure("%s:operand_changed" % prop, case, "the previous value of the chain changed when the next one was derived")
+                    break
+                f = f2
+                alive.append(f)
+                if not observe and k < n - 1 and k % 10 != 9:
+                    continue  # the unobserved variant looks only at every 10th value and the last
+                got = C.cells(f)
+                if got != cells or f.s != "".join(c for c, _ in cells) or len(f) != len(cells):
+                    acc.failure("%s:chain_result" % prop, case, "cells %r..., expected %r..." % (got[-6:], cells[-6:]))
+                    break
+                if prop in ("C01", "C05", "C13", "C19"):
+                    shown = sgr.interpret(str(f))[0]
+                    if shown != cells:
+                        acc.failure("%s:chain_display" % prop, case, "displays %r..." % (shown[-6:],))
+                        break
+                if prop == "C05" and C.cells(FmtStr.from_str(str(f))) != cells:
+                    acc.failure("C05:roundtrip_formatting", case, "")
+                    break
+                if prop == "C10":
+                    from mc.props import c10
+
+                    if f.width != sum(c10.W[c] for c, _ in cells):
+                        acc.failure("C10:width", case, "")
+                        break
+                if prop == "C19":
+                    g = C.build(tuple((c, a) for c, a in cells))
+                    if (f == g) is not (str(f) == str(g)) or (f == g and hash(f) != hash(g)):
+                        acc.failure("C19:eq_vs_terminal_string", case, "")
+                        break
+
+
+def chain_shard(args):
+    from mc.runner import Acc
+
+    prop, seed = args
+    acc = Acc(seed=seed)
+    check_chains(acc, prop)
     return acc.export()
